@@ -35,23 +35,35 @@ EDGE = re.compile(r'^\s*(\d+):"out\.(-?\d+)" -> (\d+):"in\.(-?\d+)" \[label=(.*)
 PORT = re.compile(r'PORT="(in|out)\.(-?\d+)"')
 
 
-def parse_label_attr(rest: str) -> str:
-    """The label attribute value at the start of `rest` (bare id or quoted string)."""
+def parse_label_attr(rest: str):
+    """Candidate readings of the label attribute value at the start of `rest`: a quoted string
+    (graphviz escapes only double quotes), an HTML-like <...> string or a bare id."""
     if rest.startswith('"'):
-        out = []
+        raw = []
         i = 1
         while i < len(rest):
             ch = rest[i]
-            if ch == "\\" and i + 1 < len(rest):
-                out.append(rest[i + 1])
+            if ch == "\\" and i + 1 < len(rest) and rest[i + 1] == '"':
+                raw.append('\\"')
                 i += 2
                 continue
             if ch == '"':
                 break
-            out.append(ch)
+            raw.append(ch)
             i += 1
-        return "".join(out)
-    return rest.split(" ", 1)[0]
+        raw = "".join(raw)
+        return {raw, raw.replace('\\"', '"')}
+    if rest.startswith("<"):
+        depth = 0
+        for i, ch in enumerate(rest):
+            if ch == "<":
+                depth += 1
+            elif ch == ">":
+                depth -= 1
+                if depth == 0:
+                    return {rest[: i + 1]}
+        return {rest}
+    return {rest.split(" ", 1)[0]}
 
 
 def parse(src: str):
@@ -95,7 +107,7 @@ def parse(src: str):
         if m:
             key = (int(m.group(1)), int(m.group(2)), int(m.group(3)), int(m.group(4)))
             edges[key] += 1
-            edge_labels.setdefault(key, []).append(parse_label_attr(m.group(5)))
+            edge_labels.setdefault(key, []).append(sorted(parse_label_attr(m.group(5))))
         i += 1
     return nodes, clusters, edges, edge_labels, dup
 
@@ -166,7 +178,7 @@ def check_one(h, cfg_desc):
     for s, d in h.links():
         kd = h.port_kind(s)
         key = (s.node.idx, s.offset, d.node.idx, d.offset)
-        if isinstance(kd, tys.ValueKind) and key in labels and str(kd.ty) not in labels[key]:
+        if isinstance(kd, tys.ValueKind) and key in labels and not any(str(kd.ty) in cands for cands in labels[key]):
             f.append(Fail("edges", "value-edge-label", f"{key}: {labels[key]} expected {str(kd.ty)!r}"))
             break
     parsed = (set(nodes), dict(clusters), edges, {k: sorted(v) for k, v in labels.items()}, {i: (sorted(Counter((d, int(k)) for d, k in PORT.findall(nodes[i][0])).elements()), nodes[i][1]) for i in nodes})
